@@ -2,6 +2,7 @@ import ChythonModel.Proofs.C10WF
 import ChythonModel.Proofs.C10Layout3
 import ChythonModel.Proofs.C10V0
 import ChythonModel.Proofs.C10Stable
+import ChythonModel.Proofs.C10Attach
 import ChythonModel.Proofs.C10Half
 import ChythonModel.Proofs.C10HalfTrunc
 /-!
@@ -112,6 +113,19 @@ theorem decode_layout_v0 (m : PMol) (h : WF m) (rest : List Nat) :
 theorem order_stream_is_layout (codes : List Nat) (b : Nat) (h : ∀ c ∈ codes, c < 8) :
     orderEnc 0 b codes = fieldsBytes (codes.map fun c => (3, c)) :=
   orders_layout codes b h
+
+/-- **cis/trans labels survive** (`MoleculeContainer.unpack`'s re-attachment loop): given a `_stereo_cis_trans_centers`
+    dictionary that leads the first terminal of every marked bond back to that bond (`CentersOK`; stereo perception itself is
+    outside the model), pack → unpack → re-attach returns the original atoms with every bond mark on both directions. -/
+theorem unpack_pack_with_stereo (m : PMol) (h : WF m) (centers : List (Nat × Nat × Nat)) (hc : CentersOK m centers)
+    (rest : List Nat) :
+    ∃ bytes, encode m = .ok bytes ∧
+      (decode (bytes ++ rest)).map (fun d => attach centers d.atoms d.cisTrans) = .ok m.atoms := by
+  obtain ⟨bytes, e1, _, e3⟩ := decode_encode_aux m h rest
+  refine ⟨bytes, e1, ?_⟩
+  rw [e3]
+  show Except.ok (attach centers (m.atoms.map eraseSt) (ctListOf m.terminals (firstSeen [] m.atoms))) = _
+  rw [attach_roundtrip_aux m h centers hc]
 
 /-- with symmetric adjacency every bond is listed from both ends: the neighbour counts add up to twice the number of
     bonds whose order is written (this is what makes `bonds_count = Σ neighbours / 2` right in both `.pyx` files) -/
@@ -249,6 +263,9 @@ example : RxnWF ⟨[exMol, exSmall], [exSmall], []⟩ ∧ RxnWF ⟨[], [exMol], 
   have h2 : WF exSmall := wf_of_wfb exSmall (by decide +kernel)
   constructor <;> refine ⟨?_, by simp [PRxn.molecules], by simp, by simp, by simp⟩ <;>
     · intro m hm; simp [PRxn.molecules] at hm; rcases hm with rfl | rfl | rfl <;> assumption
+
+/-- `CentersOK` is satisfiable with a marked bond present: terminals of bond 4095=7 are (300, 1), and 300 leads back to it -/
+example : CentersOK exMol [(300, 7, 4095), (1, 4095, 7)] := centersOKb_sound _ _ (by decide +kernel)
 
 example : AtomOK exMol.atoms.head! := (wf_of_wfb exMol (by decide +kernel)).atomsOK _ (by decide)
 
